@@ -53,9 +53,11 @@ class C12(Prop):
     lean_exe = "c12_driver"
     harness = "h_dsqdata.c"
     harness_includes_c = ["esl_dsqdata.c"]
-    # esl_dsqdata.c is compiled inside the harness: `1 << 31` (eslDSQDATA_EOD) and the unaligned `*(int32_t *) ptr` taxid load
-    # are undefined by the letter of C but benign on the supported targets; they are reported, not part of C12.
-    harness_flags = WRAP + ["-fno-sanitize=shift-base", "-fno-sanitize=alignment"]
+    # esl_dsqdata.c is compiled inside the harness. dsqdata_chunk_Create() places <psq> at smem + U - 4*maxpacket, which is not
+    # 4-byte aligned in general (odd for the default limits): every packet load is a misaligned uint32_t access - formally undefined,
+    # benign on the supported targets, not part of C12. Patch proposed (/var/tmp/fixes-proposed/C12-dsqdata-psq-align.patch: round U
+    # up to a multiple of 4); the check passes with and without this flag once that patch is in.
+    harness_flags = WRAP + ["-fno-sanitize=alignment"]
     theorems = ["EaselModel.Props.C12." + t for t in (
         "wq_conservation", "wq_exclusive", "wq_fifo", "wq_fifo_prefix", "wq_counters", "wq_no_lost_wakeup_worker",
         "wq_no_lost_wakeup_reader", "wq_wake_delivers", "wq_no_overflow", "wq_run_reachable",
@@ -88,8 +90,8 @@ class C12(Prop):
                    "under the mutex must equal the model state), not proved; data-race freedom / the pthread memory model is not a theorem",
                    "caller contract of the work queue (Admissible): Init hands in each block once and at most `size` blocks; Reset is not called while a worker "
                    "sleeps in WorkerUpdate (counter-example proved: wq_reset_while_pending_loses_wakeup); one reader thread",
-                   "UBSan checks shift-base and alignment are disabled for the harness translation unit: `1 << 31` and the unaligned taxid load in esl_dsqdata.c "
-                   "are formally undefined but benign (reported to the coordinator)",
+                   "UBSan's alignment check is disabled for the harness translation unit (misaligned <psq> inside <smem>, reported with a patch); all other "
+                   "ASan/UBSan checks are active",
                    "allocation never fails; file system behaves"]
     rule = ("cases = codec ops on boundary-rich digital sequences (valid and out-of-range codes, malformed packet streams), sequential queue op histories, "
             "threaded queue runs (1-6 workers, size 1-8, perturbed schedules) whose logged trace must be a path of the model, and write/read-back of "
